@@ -96,8 +96,9 @@ class OrderUnit(Unit):
         E.check('order.eq-consistent', I.call(pee, a, b) == Or(ab, a == b))
         E.must_fail('order.symmetric', Implies(ab, ba))
         # context predicates against the two base relations and against the S4 contract
-        ctx = ConnectionContext.__new__(ConnectionContext)
+        ctx = ConnectionContext(protocol_version=0)      # the real constructor: every private attribute it creates exists
         ctx.__dict__['protocol_version'] = c
+        I.tracked_frames.append(('context', ctx, dict(vars(ctx))))
         d = ConnectionContext.__dict__
         later = I.call(d['protocol_later'], ctx, a)
         later_eq = I.call(d['protocol_later_eq'], ctx, a)
